@@ -44,3 +44,152 @@ def extract(read, fail, lean_str, lean_list):
         f"def ruleCmpRankDescending : Bool := {'true' if a == 'other' else 'false'}",
         f"def ruleCmpIdDescending : Bool := {'true' if c == 'other' else 'false'}",
     ]
+
+
+# --------------------------------------------------------------------------------------------
+# The two straight-line decision functions StatusCodeUpdate::get_status_code and
+# LogOverride::get_log_override are TRANSLATED from the source (whitelisted expression forms only;
+# anything else fails closed), so that C05's closed-form theorems are re-proved against what the
+# code says now.
+
+_ATOMS = {
+    "response_status_code == 0": "c == 0",
+    "response_status_code != 0": "c != 0",
+    "self.on_response_status_codes.is_empty()": "codes.isEmpty",
+    "!self.on_response_status_codes.is_empty()": "!codes.isEmpty",
+    "self.exclude_response_status_codes": "excl",
+    "!self.exclude_response_status_codes": "!excl",
+    "self.on_response_status_codes.contains(&response_status_code)": "codes.contains c",
+    "!self.on_response_status_codes.contains(&response_status_code)": "!codes.contains c",
+    "self.on_response_status_codes.iter().any(|v| *v == response_status_code)": "codes.any (fun v => v == c)",
+    "!self.on_response_status_codes.iter().any(|v| *v == response_status_code)": "!codes.any (fun v => v == c)",
+}
+
+_STATUS_EXPRS = {
+    "self.status_code": "statusCode",
+    "self.fallback_status_code": "fallbackStatusCode",
+    "self.rule_id.as_ref()": "ruleId",
+    "self.fallback_rule_id.as_ref()": "fallbackRuleId",
+    "0": "0",
+    "None": "none",
+}
+
+_LOG_EXPRS = {
+    "Some(self.log_override)": "some logOverride",
+    "self.fallback_log_override": "fallbackLogOverride",
+    "self.rule_id.clone()": "ruleId",
+    "self.fallback_rule_id.clone()": "fallbackRuleId",
+    "None": "none",
+    "true": "true",
+    "false": "false",
+}
+
+
+def _split_top(s, sep):
+    """split on `sep` outside parentheses"""
+    out, depth, cur, i = [], 0, "", 0
+    while i < len(s):
+        ch = s[i]
+        if ch in "([":
+            depth += 1
+        elif ch in ")]":
+            depth -= 1
+        if depth == 0 and s.startswith(sep, i):
+            out.append(cur.strip())
+            cur = ""
+            i += len(sep)
+            continue
+        cur += ch
+        i += 1
+    out.append(cur.strip())
+    return out
+
+
+def _cond(src, fail, where):
+    if "||" in src:
+        fail(f"{where}: `||` is not in the whitelisted condition forms: {src}")
+    parts = _split_top(src, "&&")
+    out = []
+    for p in parts:
+        if p not in _ATOMS:
+            fail(f"{where}: condition atom not in the whitelist: `{p}`")
+        out.append(_ATOMS[p])
+    return " && ".join(out)
+
+
+def _tuple(src, table, arity, fail, where):
+    src = src.strip()
+    if not (src.startswith("(") and src.endswith(")")):
+        fail(f"{where}: expected a tuple, found `{src}`")
+    parts = _split_top(src[1:-1], ",")
+    if len(parts) != arity:
+        fail(f"{where}: expected a {arity}-tuple, found `{src}`")
+    out = []
+    for p in parts:
+        if p not in table:
+            fail(f"{where}: tuple component not in the whitelist: `{p}`")
+        out.append(table[p])
+    return "(" + ", ".join(out) + ")"
+
+
+def _decision(body, table, arity, fail, where):
+    """body = (`if COND { return TUPLE; }`)* TUPLE  ->  Lean if-chain"""
+    rest = _norm(body).strip()
+    lines = []
+    pat = re.compile(r"^if (.*?) \{ return (\(.*?\)); \} ")
+    while rest.startswith("if "):
+        m = pat.match(rest)
+        if not m:
+            fail(f"{where}: statement is not `if COND {{ return TUPLE; }}`: {rest[:120]}")
+        lines.append((_cond(m.group(1), fail, where), _tuple(m.group(2), table, arity, fail, where)))
+        rest = rest[m.end():]
+    final = _tuple(rest, table, arity, fail, where)
+    if not lines:
+        fail(f"{where}: no conditional return found")
+    out = []
+    for i, (c, t) in enumerate(lines):
+        out.append(("  if " if i == 0 else "  else if ") + c + " then " + t)
+    out.append("  else " + final)
+    return out
+
+
+def _fn_body(src, signature_re, fail, where):
+    m = re.search(signature_re + r" \{\n(.*?)\n    \}\n", src, re.S)
+    if not m:
+        fail(f"{where}: function not found")
+    return m.group(1)
+
+
+_extract_order = extract
+
+
+def extract(read, fail, lean_str, lean_list):  # noqa: F811  (wraps the order extraction above)
+    out = _extract_order(read, fail, lean_str, lean_list)
+    st = read("src/action/status_code_update.rs")
+    body = _fn_body(st, r"pub fn get_status_code\(&self, response_status_code: u16\) -> \(u16, Option<&String>\)", fail,
+                    "status_code_update.rs get_status_code")
+    out += [
+        "",
+        "/-- `StatusCodeUpdate::get_status_code`, translated from src/action/status_code_update.rs. -/",
+        "def statusGetStatusCode (statusCode : Nat) (codes : List Nat) (excl : Bool) (fallbackStatusCode : Nat)",
+        "    (ruleId fallbackRuleId : Option (List Nat)) (c : Nat) : Nat × Option (List Nat) :=",
+    ] + _decision(body, _STATUS_EXPRS, 2, fail, "status_code_update.rs get_status_code")
+    lg = read("src/action/log_override.rs")
+    body = _fn_body(lg, r"pub fn get_log_override\(&self, response_status_code: u16\) -> \(Option<bool>, Option<String>, bool\)", fail,
+                    "log_override.rs get_log_override")
+    out += [
+        "",
+        "/-- `LogOverride::get_log_override`, translated from src/action/log_override.rs. -/",
+        "def logGetLogOverride (logOverride : Bool) (codes : List Nat) (excl : Bool) (fallbackLogOverride : Option Bool)",
+        "    (ruleId fallbackRuleId : Option (List Nat)) (c : Nat) : Option Bool × Option (List Nat) × Bool :=",
+    ] + _decision(body, _LOG_EXPRS, 3, fail, "log_override.rs get_log_override")
+    # the struct fields the translation refers to must still have the modelled types
+    for fld in ["pub status_code: u16", "pub on_response_status_codes: Vec<u16>", "pub exclude_response_status_codes: bool",
+                "pub fallback_status_code: u16", "pub rule_id: Option<String>", "pub fallback_rule_id: Option<String>"]:
+        if fld not in st:
+            fail(f"status_code_update.rs: field `{fld}` not found")
+    for fld in ["pub log_override: bool", "pub on_response_status_codes: Vec<u16>", "pub exclude_response_status_codes: bool",
+                "pub fallback_log_override: Option<bool>", "pub rule_id: Option<String>", "pub fallback_rule_id: Option<String>"]:
+        if fld not in lg:
+            fail(f"log_override.rs: field `{fld}` not found")
+    return out
